@@ -27,7 +27,8 @@ POOL_SPECS = (
     + [f"s{t}" for t in ("", "a", "b", "ab", "abc", "key", "k1", "k2", "k3", "k4", "k5", "k6", "k7", "k8", "k9", "x", "y", "z",
                          "elk", "foo", "bar", "baz", "1", "2")]
     + ["c97", "c98", "c0", "c8364"]
-    + ["f3ff0000000000000", "f4000000000000000", "f0000000000000000", "f8000000000000000", "f7ff8000000000000", "f3fe0000000000000"]
+    + ["f3ff0000000000000", "f4000000000000000", "f0000000000000000", "f8000000000000000", "f3fe0000000000000", "f7ff0000000000000"]
+    # (NaN is left out: it is not == to itself, so it is not a key of a finite map keyed by ==)
     + ["n", "t", "F"] + [f"y{t}" for t in ("a", "b", "foo", "elk_sym_1", "elk_sym_2")]
 )
 
@@ -166,7 +167,10 @@ def gen_line(rng, pool, ctx=None, stable_only=False):
                 ops.append(f"copy {o} {b}")
                 approx[o] |= approx[b]
             elif x < 0.98:
-                ops.append(f"eq {o} {rng.randrange(len(impl_of))}")
+                # a map is never == to a record (different classes): compare within one family
+                fam = lambda t: t in ("r", "nr")
+                cand = [i for i, t in enumerate(impl_of) if fam(t) == fam(impl)]
+                ops.append(f"eq {o} {rng.choice(cand)}")
             elif x < 0.99:
                 ops.append(f"items {o}")
             else:
@@ -468,12 +472,15 @@ def gen_elk_program(rng, pool, pid):
                 want.append("true" if k[0] in sets[o] else "false")
             elif x < 0.78 and len(sets) < 4:
                 b = rng.randrange(len(sets))
-                body.append(f"s{len(sets)} := s{o} | s{b}")
+                body.append(f"var s{len(sets)}: HashSet[{kt}] = s{o} | s{b}")
                 sets.append(sets[o] | sets[b])
             elif x < 0.86 and len(sets) < 4:
+                # `s & t` is typed HashSet[never] by the checker for equal element types (HashSet[Val & V]), so the
+                # result cannot be used from typed Elk source; intersection is exercised on the Go API (`inter`).
+                # Here: the length of the intersection only.
                 b = rng.randrange(len(sets))
-                body.append(f"s{len(sets)} := s{o} & s{b}")
-                sets.append(sets[o] & sets[b])
+                body.append(f"println(\"@\" + (s{o} & s{b}).length.inspect)")
+                want.append(str(len(sets[o] & sets[b])))
             elif x < 0.93:
                 b = rng.randrange(len(sets))
                 body.append(f"println(\"@\" + (s{o} == s{b}).inspect)")
